@@ -46,7 +46,28 @@ def _cases(draw, max_size=9):
     else:
         a = draw(st.sampled_from([0.1, 3.0, 7.3, 1e-3, 123.456]))
         b = draw(st.floats(min_value=-1000, max_value=1000))
-    return dict(s=s, thr=thr, targets=targets, a=a, b=b, exact=exact,
+    huge = False
+    if s["mode"] in ("float", "distinct") and s["pos"] and s["neg"] and draw(st.integers(0, 7)) == 0:
+        # two scores further apart than the largest finite float (sentinels at both ends of one class)
+        huge = True
+        which = draw(st.sampled_from(["pos", "neg"]))
+        # ... and consecutive in that class: everything else it holds lies beyond them
+        pair = draw(st.sampled_from([[-1e308, 1e308], [-1.5e308, -1e308, 1e308], [-1e308, 1e308, 1.7e308],
+                                     [-9e307, 9.5e307], [-1e308, 1e308, 1e308]]))
+        s = dict(s, **{which: list(pair)})
+        a, b, exact = draw(st.sampled_from([0.25, 0.5])), float(draw(st.integers(-100, 100))), False
+    elif s["mode"] in ("float", "distinct") and s["pos"] and s["neg"] and draw(st.integers(0, 7)) == 0:
+        # neighbouring floats at a power of two, one per class: the gap below differs from the gap above, and
+        # a map by 3 moves the pair away from the power of two
+        p2 = draw(st.sampled_from([1.0, 2.0, 0.5, 1024.0, -1.0, -4.0]))
+        lo = float(np.nextafter(p2, -np.inf))
+        up, dn = draw(st.sampled_from(["pos", "neg"])), None
+        dn = "neg" if up == "pos" else "pos"
+        far = [x for x in s[up] if abs(x - p2) > 1.0], [x for x in s[dn] if abs(x - p2) > 1.0]
+        # (mode "float": the EER clauses are for separated scores, not for neighbours one ulp apart)
+        s = dict(s, mode="float", **{up: far[0] + [p2], dn: far[1] + [lo]})
+        a, b, exact = 3.0, 0.0, False
+    return dict(s=s, thr=thr, targets=targets, a=a, b=b, exact=exact, huge=huge,
                 neg_dtype=draw(st.sampled_from([None, None, "int", "float32", "int8"])))
 
 
